@@ -414,10 +414,10 @@ func (p *Program) requestPath() map[*ssa.Function]bool {
 	roots := map[*ssa.Function]bool{}
 	ro := p.Roles()
 	for _, f := range ro.ConnFns {
-		roots[f] = true
+		roots[p.orig(f)] = true
 	}
 	for _, f := range ro.Loops {
-		roots[f] = true
+		roots[p.orig(f)] = true
 	}
 	if ra, err := newReplyAnalysis(p); err == nil {
 		for f := range ra.entries {
@@ -447,7 +447,7 @@ func (p *Program) requestPath() map[*ssa.Function]bool {
 			return
 		}
 		seen[f] = true
-		if n := cg.Nodes[f]; n != nil {
+		if n := cgNodeOf(cg, f); n != nil {
 			for _, e := range n.Out {
 				walk(e.Callee.Func)
 			}
@@ -943,7 +943,7 @@ func (p *Program) buildPath() map[*ssa.Function]bool {
 			return
 		}
 		seen[f] = true
-		if n := cg.Nodes[f]; n != nil {
+		if n := cgNodeOf(cg, f); n != nil {
 			for _, e := range n.Out {
 				walk(e.Callee.Func)
 			}
@@ -1049,7 +1049,7 @@ func callersPassLocal(p *Program, rp map[*ssa.Function]bool, fn *ssa.Function, p
 	if depth == 0 {
 		return false, "a caller chain deeper than the lifting bound"
 	}
-	node := p.CallGraph().Nodes[fn]
+	node := p.cgNode(fn)
 	if node == nil || len(node.In) == 0 {
 		// closures called directly are not always in the CHA graph: look at the parent
 		if fn.Parent() != nil {
@@ -1262,7 +1262,6 @@ func phiReaches(v ssa.Value, target *ssa.Phi) bool {
 	return walk(v)
 }
 
-
 // privateCapturedCell: fv is a variable of the enclosing call captured by closure fn, the cell is a local of
 // that call (parameter spill or local), and the closure value is only returned or passed on as an argument
 // by the enclosing function - never started as a goroutine there and never stored into a field or global.
@@ -1312,7 +1311,6 @@ func privateCapturedCell(fn *ssa.Function, fv *ssa.FreeVar) bool {
 	}
 	return n > 0
 }
-
 
 // stripSlices removes reslicing and type changes: s[a:b] has the backing array of s.
 func stripSlices(v ssa.Value) ssa.Value {
